@@ -116,6 +116,8 @@ void harness(void)
 		break; }
 	default: rv = mpq_ILLtest_lp_state_next_is(st, "<="); break;
 	}
+	if (st->eof && which != 12 && which != 13)
+		ASSERT(st->p == st->line && st->line[0] == 0, "C11: at end of file the cursor is at the start of an empty line (an error reported there carries a position inside the stored line)");
 	if (!st->eof) {
 		size_t cur = 0; for (i = 0; i < LLEN + 2; i++) if (st->line[cur] != 0) cur++;
 		ASSERT(st->p >= st->line && st->p <= st->line + cur, "C11: the cursor stays inside the current line text");
